@@ -59,6 +59,8 @@ def line_level_part(rep, specs, gran="line", shares=2, key="line_level_one_preem
     """Engine-L part of a check that is not otherwise an engine-T check: explore the given two-call scenarios with one
     pre-emption at every source line and report violations / coverage under `key`."""
     jobs = []
+    if rep.tier == "thorough" and gran == "line":
+        gran, shares = "opcode", 8  # every bytecode of the package as a pre-emption point
     for sp in specs:
         jobs += tscen.line_level(sp, gran, shares)
     results = run_scenarios(rep, jobs)
